@@ -84,9 +84,9 @@ def L0b():
         yield ("rec", s)
 
 
-def L0c():
+def L0c(depth=2):
     """functions without a return type: value-less returns; with the shape followed by more statements / as the last statement"""
-    for s in cfgen.shapes(2):
+    for s in cfgen.shapes(depth):
         yield ("void", s)
         yield ("voidlast", s)
 
